@@ -420,6 +420,16 @@ fn eval_node_test(
     context: &mut model::Context,
 ) -> error::Result<bool> {
     match test {
+        // A name test only matches nodes of the principal node type of the axis (element, or
+        // attribute / namespace on those axes), never text, comments or processing instructions.
+        expr::NodeTest::Name(_)
+            if !matches!(
+                node.node_type(),
+                dom::NodeType::Element | dom::NodeType::Attribute
+            ) =>
+        {
+            Ok(false)
+        }
         expr::NodeTest::Name(name) => match name {
             expr::NameTest::All => Ok(true),
             expr::NameTest::Namespace(prefix) => {
